@@ -191,6 +191,7 @@ def timing_tokens(tok, c, dt, dur):
 def near_int_delay(dists, c, dt, eps=1e-7):
     """True if some distance/c/dt is within eps (relative) of an integer"""
     x = np.asarray(dists, dtype=float) / c / dt
+    x = x[x != 0]
     return bool(np.any(np.abs(x - np.round(x)) < eps * np.maximum(1.0, np.abs(x))))
 
 
